@@ -10,7 +10,7 @@ def sh(cmd, cwd=None, env=None, timeout=1800):
 def main():
     mod, var = sys.argv[1], sys.argv[2]
     rebased = "--rebased" in sys.argv   # a refactoring re-applied on a later HEAD by a sub-agent (worktree /tmp/wt/RB_<mod>)
-    wt = f"/tmp/wt/RB_{mod}" if rebased else f"/tmp/wt/R_{mod}"
+    wt = f"/tmp/wt/RB_{mod}" if rebased else (f"/tmp/wt/S_{mod}" if os.path.isdir(f"/tmp/wt/S_{mod}/SEED/{var}") else f"/tmp/wt/R_{mod}")
     sd = f"{wt}/SEED/{var}"
     env = dict(os.environ, PYTHONPATH=wt)
     sh("git checkout -- websocket", cwd=wt)
